@@ -1245,3 +1245,59 @@ def validators_accept_cid_path_table(ctx, rule):
 
     ctx.res.minimum(rule, 1)
     return decide(ctx, rule, "Reader / Writer constructed with the path of a CID", VALIDATOR + ".__init__", cell, min_cells=4)
+
+
+# =============================================================================== a row the row writer refuses
+def writer_refusal_after_checks_table(ctx, rule):
+    """
+    "Emits nothing for a row it rejected ... reading the produced output back accepts every row": a row can still be
+    refused after validate_row() accepted it - the row writer raises DataFormatError when a character cannot be encoded.
+    Such a row is not in the output, so no check may have registered it (an IsUnique key, a distinct value); otherwise
+    the next row is a "duplicate" of a row that was never written and the end-of-data verdict counts it.  The real
+    validate_row() runs with recording checks; the target stream refuses the first row with a UnicodeEncodeError.
+    """
+    from ..tablekit import decide_kinds
+
+    model = ctx.model
+
+    def cell(ch):
+        format_name = ch.choose("format", ["delimited", "fixed"])
+        interp = Interp(model, ch)
+        world = World(model, interp, ch)
+        always_ok = (CHECK_OK,)
+        checks = [world.recording_check(0, row_outcomes=always_ok, end_outcomes=always_ok)]
+        cid = world.cid([world.recording_field(0), world.recording_field(1)], checks, world.data_format(format_name, header=0))
+        install_writer_externals(interp)
+        for index, field in enumerate(cid.attrs["_field_formats"]):
+            field.attrs["validated"] = stub(lambda interp_, args, kwargs: args[0])
+            if format_name == "fixed":
+                field.attrs["_length"] = Obj(model.cls("cutplace.ranges.Range"), {"_items": [(2, 2)], "_lower_limit": 2, "_upper_limit": 2},
+                                             label="length%d" % index)
+        writes = []
+
+        @stub
+        def stream_write(interp_, args, kwargs):
+            writes.append(args[0])
+            if len(writes) == 1:
+                interp_.raise_("builtins.UnicodeEncodeError", "'ascii' codec can't encode character")
+
+        target = Obj("io.TextIOWrapper", {"name": "<target>", "write": stream_write, "close": stub(lambda i, a, k: None)}, label="target")
+        if format_name == "fixed":
+            interp.externals["len"] = lambda interp_, args, kwargs: 2  # every cell is as wide as its field
+        writer = _construct(interp, WRITER, [cid, target])
+        row = world.row(0, 2)
+        del interp.events[:]
+        key = "%s: the target refuses the row (UnicodeEncodeError)" % format_name
+        try:
+            interp.call_function(model.func(WRITER + ".write_row"), [writer, row], {}, None)
+            return (key, "a row that could not be written is reported as written", "no DataFormatError")
+        except AbsRaise as raised:
+            if exc_name(raised.value) != "DataFormatError":
+                return (key, "the refusal surfaces as " + exc_name(raised.value), exc_name(raised.value))
+        registered = [event for event in interp.events if event[0] == "check_row"]
+        if registered:
+            return (key, "a row the row writer refuses was already registered by the checks", "check_row called for %s" % (registered[0][1],))
+        return (key, None, None)
+
+    ctx.res.minimum(rule, 1)
+    return decide_kinds(ctx, rule, "Writer: a row refused by the row writer", WRITER + ".write_row", cell, min_cells=2)
